@@ -17,8 +17,7 @@ Definition gen_VC_put (s : vc_st) (class_id : Z) (now : Q) (size : Z) (vtick : Q
   : vc_st * list vc_fx :=
   let vc2 :=
     (if (Qeq_bool ((v_vc s) class_id) (0 # 1))
-     then let vc1 := (gen_upd (v_vc s) class_id now) in
-          vc1
+     then (gen_upd (v_vc s) class_id now)
      else (v_vc s)) in
   let aux_vc1 := (gen_upd (v_aux_vc s) class_id (Qmax now ((v_aux_vc s) class_id))) in
   let vc3 := (gen_upd vc2 class_id ((vc2 class_id) + ((vtick * (inject_Z size))%Q * (8 # 1))%Q)%Q) in
